@@ -1,5 +1,225 @@
 import GT.Base.JsonQ
-open Lean GT.J
+import GT.Base.QSqrt
+import GT.Model.Dtype
+import GT.Model.Rescale
+open Lean GT.J GT GT.Dtype GT.Rescale
 namespace GT.Driver.C12
-def ops : List (String × Handler) := []
+
+/-! ### dtype decision model -/
+
+def dtOf (s : String) : R Dt :=
+  match s with
+  | "int64" => pure .int64 | "float32" => pure .float32 | "float64" => pure .float64
+  | "complex128" => pure .complex128 | "object" => pure .object
+  | _ => throw s!"unknown dtype {s}"
+
+def dtStr : Dt → String
+  | .int64 => "int64" | .float32 => "float32" | .float64 => "float64"
+  | .complex128 => "complex128" | .object => "object"
+
+def rankOf (n : Nat) : R Rank :=
+  match n with | 0 => pure .r0 | 1 => pure .r1 | 2 => pure .r2 | _ => throw "rank > 2"
+
+def numOf (s : String) : R PyNum :=
+  match s with
+  | "int" => pure .int | "float" => pure .float | "complex" => pure .complex
+  | _ => throw s!"unknown python number class {s}"
+
+/-- packagings travel as `{"k":"py","t":"float"}`, `{"k":"scalar","d":"int64"}`,
+`{"k":"arr","rank":1,"d":"float32"}`, `{"k":"list","depth":2,"t":"int"}`, `{"k":"other"}` -/
+def packOf (j : Json) : R Pack := do
+  match (← strf j "k") with
+  | "py" =>
+    match (← numOf (← strf j "t")) with
+    | .int => pure .pyInt | .float => pure .pyFloat | .complex => pure .pyComplex
+  | "scalar" => return .npScalar (← dtOf (← strf j "d"))
+  | "arr" => return .arr (← rankOf (← natf j "rank")) (← dtOf (← strf j "d"))
+  | "list" =>
+    let d ← natf j "depth"
+    let e ← numOf (← strf j "t")
+    match d with
+    | 1 => pure (.list .d1 e) | 2 => pure (.list .d2 e) | _ => throw "depth must be 1 or 2"
+  | "other" => pure .other
+  | k => throw s!"unknown packaging kind {k}"
+
+def packStr : Pack → String
+  | .pyInt => "py:int" | .pyFloat => "py:float" | .pyComplex => "py:complex"
+  | .npScalar d => "scalar:" ++ dtStr d
+  | .arr _ d => "arr:" ++ dtStr d
+  | .list _ _ => "list" | .other => "other"
+
+def optPack (j : Json) (k : String) : R (Option Pack) :=
+  match j.getObjVal? k with
+  | .ok .null => pure none
+  | .ok v => do return some (← packOf v)
+  | .error _ => pure none
+
+def optDt (j : Json) (k : String) : R (Option Dt) :=
+  match j.getObjVal? k with
+  | .ok .null => pure none
+  | .ok v => do return some (← dtOf (← str v))
+  | .error _ => pure none
+
+def libOf (j : Json) : R Lib := do
+  let major ← natf j "major"
+  match fieldD j "lib" (.str "repaired") with
+  | .str "repaired" => pure (Lib.repaired major)
+  | .str "pinned" => pure (Lib.pinned major)
+  | _ => throw "lib must be repaired or pinned"
+
+def outDt (e : Except Err Dt) : R Json :=
+  match e with
+  | .ok d => pure (.str (dtStr d))
+  | .error .typeError => throw "TypeError"
+
+def outBool (e : Except Err Bool) : R Json :=
+  match e with
+  | .ok b => pure (.bool b)
+  | .error .typeError => throw "TypeError"
+
+def targetOf (s : String) : R Target :=
+  match s with
+  | "int" => pure .int | "float" => pure .float | "complex" => pure .complex
+  | _ => throw s!"unknown cast target {s}"
+
+def entryOf (s : String) : R Entry :=
+  match s with
+  | "rotation_matrix" => pure .rotationMatrix | "standard_rotation" => pure .standardRotation
+  | "elliptic" => pure .elliptic | "sl2_iso" => pure .sl2Iso | "from_angle" => pure .fromAngle
+  | "regular_polygon" => pure .regularPolygon | "coxeter_rep" => pure .coxeterRep
+  | "array_like" => pure .arrayLike | "zeros_float" => pure .zerosFloat
+  | "identity_float" => pure .identityFloat | "point_hyperboloid" => pure .pointHyperboloid
+  | "point_affine_hyperboloid" => pure .pointFromAffineHyperboloid
+  | "transformation_inv" => pure .transformationInv | "zeros" => pure .zeros
+  | "identity" => pure .identity | "point_ctor" => pure .pointCtor
+  | "point_affine" => pure .pointFromAffine | "transformation_ctor" => pure .transformationCtor
+  | _ => throw s!"unknown entry point {s}"
+
+/-- `np.can_cast(from, to)`; `from` is a packaging or `{"dtype": d}` -/
+def canCastOp (j : Json) : R Json := do
+  let major ← natf j "major"
+  let f ← field j "from"
+  let t ← targetOf (← strf j "to")
+  match f.getObjVal? "dtype" with
+  | .ok d => outBool (canCast major (.dtype (← dtOf (← str d))) t)
+  | .error _ => outBool (canCast major (.obj (← packOf f)) t)
+
+def promoteOp (j : Json) : R Json := do
+  return .str (dtStr (promote (← dtOf (← strf j "d")) (← dtOf (← strf j "e"))))
+
+def probeOp (j : Json) : R Json := do
+  let p ← packOf (← field j "pack")
+  return Json.mkObj [("asarray", .str (dtStr p.asarrayDtype)),
+    ("attr", match p.dtypeAttr with | some d => .str (dtStr d) | none => .null)]
+
+def isLinalgOp (j : Json) : R Json := do
+  let L ← libOf j
+  let p ← packOf (← field j "pack")
+  let inexact := match fieldD j "lib" (.str "repaired") with
+    | .str "pinned" => inexactTypePinned L.major p
+    | _ => inexactType L.major p
+  return Json.mkObj [("is_linalg", .bool (L.isLinalg p)), ("inexact", .bool inexact)]
+
+def checkTypeOp (j : Json) : R Json := do
+  outDt (checkType (← libOf j) (← optDt j "dtype") (← optPack j "like") (← boolf j "integer_type"))
+
+def arrayLikeOp (j : Json) : R Json := do
+  outDt (arrayLike (← libOf j) (← packOf (← field j "array")) (← optPack j "like")
+    (← optDt j "dtype") (← boolf j "integer_type"))
+
+def zerosOp (j : Json) : R Json := do
+  outDt (zeros (← libOf j) (← optPack j "like") (← optDt j "dtype") (← boolf j "integer_type"))
+
+def identityOp (j : Json) : R Json := do
+  outDt (identity (← libOf j) (← optPack j "like") (← optDt j "dtype") (← boolf j "integer_type"))
+
+def numberOp (j : Json) : R Json := do
+  return .str (packStr (number (← packOf (← field j "val")) (← optDt j "dtype")))
+
+def entryOp (j : Json) : R Json := do
+  outDt (entryDtype (← libOf j) (← entryOf (← strf j "entry")) (← packOf (← field j "pack")))
+
+/-! ### rescaling formulas over ℚ -/
+
+def needSq (q : ℚ) : R Unit := if isSq q then pure () else throw "irrational-root"
+
+def withVec (j : Json) (k : String) (f : (n : ℕ) → (Fin (n + 1) → ℚ) → R Json) : R Json := do
+  let a ← qArr (← field j k)
+  match a.size with
+  | 0 => throw "empty vector"
+  | n + 1 => f n (← vec (n + 1) (.arr (a.map ofQ)))
+
+/-- `affine_coords(x, chart_index=k)` -/
+def affineOp (j : Json) : R Json := withVec j "x" fun n x => do
+  let k ← natf j "chart"
+  if h : k < n + 1 then
+    if x ⟨k, h⟩ == 0 then throw "GeometryError"
+    return ofVec (affineChart ⟨k, h⟩ x)
+  else throw "IndexError"
+
+/-- the two null vectors of `Segment._compute_aux_data` -/
+def segOp (j : Json) : R Json := withVec j "x1" fun n x₁ => do
+  let x₂ ← vecf (n + 1) j "x2"
+  if segA x₁ x₂ == 0 then throw "DivZero"
+  if segDisc x₁ x₂ < 0 then throw "negative-discriminant"
+  needSq (segDisc x₁ x₂)
+  return Json.arr #[ofVec (segNull rsqrt 1 x₁ x₂), ofVec (segNull rsqrt (-1) x₁ x₂)]
+
+/-- centre and radius of the Poincaré circle through two ideal points -/
+def circleOp (j : Json) : R Json := withVec j "n1" fun n N₁ => do
+  let N₂ ← vecf (n + 1) j "n2"
+  if N₁ 0 == 0 || N₂ 0 == 0 then throw "GeometryError"
+  let m : Fin n → ℚ := fun i => (klein N₁ i + klein N₂ i) / 2
+  needSq |1 - nsq m|
+  let pm := poincareMid rsqrt N₁ N₂
+  if nsq pm == 0 then throw "DivZero"
+  needSq (nsq fun i => pm i - sphereInv pm i)
+  return Json.mkObj [("centre", ofVec (circleCentre rsqrt N₁ N₂)),
+    ("radius", ofQ (circleRadius rsqrt N₁ N₂))]
+
+/-- repaired (`"pinned": false`) or pinned `unit_tangent_towards`: `[point, unit vector]` -/
+def uttOp (j : Json) : R Json := withVec j "x" fun n x => do
+  let y ← vecf (n + 1) j "y"
+  let pinned := match fieldD j "pinned" (.bool false) with | .bool b => b | _ => false
+  if mink x x == 0 then throw "DivZero"
+  let v := if pinned then tangentTowardsPinned x y else tangentTowards x y
+  needSq |mink v v|
+  let u := if pinned then unitTangentTowardsPinned rsqrt x y else unitTangentTowards rsqrt x y
+  return Json.arr #[ofVec x, ofVec u]
+
+/-- `point_along`: `x̂ + t v̂` for the unit tangent towards `y`, `t = tanh d` supplied -/
+def alongOp (j : Json) : R Json := withVec j "x" fun n x => do
+  let y ← vecf (n + 1) j "y"
+  let t ← qf j "t"
+  if mink x x == 0 then throw "DivZero"
+  needSq |mink x x|
+  let v := tangentTowards x y
+  needSq |mink v v|
+  let u := unitTangentTowards rsqrt x y
+  needSq |mink u u|
+  return ofVec (pointAlong rsqrt x u t)
+
+/-- `normalize(x, minkowski)` -/
+def normalizeOp (j : Json) : R Json := withVec j "x" fun _ x => do
+  needSq |mink x x|
+  return ofVec (normalize rsqrt x)
+
+/-- reflection of `x` in the hyperplane orthogonal to `v` -/
+def reflectOp (j : Json) : R Json := withVec j "v" fun n v => do
+  let x ← vecf (n + 1) j "x"
+  if mink v v == 0 then throw "DivZero"
+  return ofVec (reflectIn v x)
+
+/-- `Transformation(M).apply(Point(x))` (row vector times matrix) -/
+def applyOp (j : Json) : R Json := withVec j "x" fun n x => do
+  let M ← matf (n + 1) (n + 1) j "m"
+  return ofVec (applyT M x)
+
+def ops : List (String × Handler) :=
+  [("c12.can_cast", canCastOp), ("c12.probe", probeOp), ("c12.promote", promoteOp), ("c12.is_linalg", isLinalgOp),
+   ("c12.check_type", checkTypeOp), ("c12.array_like", arrayLikeOp), ("c12.zeros", zerosOp),
+   ("c12.identity", identityOp), ("c12.number", numberOp), ("c12.entry_dtype", entryOp),
+   ("c12.affine", affineOp), ("c12.segment", segOp), ("c12.circle", circleOp),
+   ("c12.utt", uttOp), ("c12.point_along", alongOp), ("c12.normalize", normalizeOp),
+   ("c12.reflect", reflectOp), ("c12.apply", applyOp)]
 end GT.Driver.C12
